@@ -33,7 +33,7 @@ def budget(tier):
     return {"examples": 160000, "shards": 16}
 
 
-DRIVES = ["start", "start", "start", "rut-beyond", "ruti-end", "ruti-beyond", "rut-clock-first"]
+DRIVES = ["start", "start", "start", "rut-beyond", "ruti-end", "ruti-beyond", "rut-clock-first", "steps", "steps"]
 
 
 def strategy(tier):
@@ -127,6 +127,18 @@ def run_case(case):
             if h.model.trace:
                 out.fail("executed-at-exclusive-bound", {"bound": t0, "executed": h.model.trace[:3],
                                                          "err": repr(e0) if e0 else None})
+            case = dict(case, drive="start")
+        if case.get("drive") == "steps":
+            # every event is carried out by a single step(); the final start() only ends the replication
+            from pydsol.core.simulator import RunState
+            guard = len(ref.trace) + 5
+            while guard > 0 and h.sim.run_state != RunState.ENDED:
+                guard -= 1
+                e_ = h.run_piece(["step"])
+                if e_ is not None:
+                    break               # (refused: nothing left to step, or the clock passed the end)
+                if len(h.model.trace) > len(ref.trace) + 3:
+                    break
             case = dict(case, drive="start")
         err = h.run_piece(_whole_run(case, ref))
         if err is not None:
